@@ -4,7 +4,8 @@
    MSH_1 entry before joining.  Everything from MSH_3 on goes through the table-driven proofs of
    RoundTripSeg.v. *)
 From Coq Require Import List Bool Arith ZArith NArith Lia Init.Byte.
-From HL7 Require Import Lib.Str Model.Ec Model.Result Model.Ref Model.Tree Model.Parser Model.Encode Model.Wf.
+From HL7 Require Import Lib.Str Model.Ec Model.Result Model.Ref Model.Tree Model.Parser Model.Encode Model.Wf
+  Model.MsgTree Model.Message.
 From HL7 Require Import Proofs.SplitJoin Proofs.LevelCodec Proofs.RoundTripStr Proofs.RoundTripCore
   Proofs.RoundTripVT Proofs.RoundTripZ Proofs.RoundTripSeg.
 Import ListNotations.
@@ -145,7 +146,9 @@ Theorem msh_roundtrip (m2 e1 e2 : str) (fs : list str) :
   (forall i f, In (i, f) (combine (seq 3 (length fs)) fs) -> tfield_text t e leaf srows i f) ->
   let text := bjoin (fsep e) (MSH :: m2 :: fs) in
   exists s, parse_segment t TOLERANT e leaf text None = Ok s /\
-            enc_segment t e s false = Ok text.
+            enc_segment t e s false = Ok text /\
+            (* what Message._get_encoding_chars reads back *)
+            s_name s = MSH /\ field_value s (unbs "MSH_1") = Some [fsep e] /\ field_value s (unbs "MSH_2") = Some m2.
 Proof.
   intros Hb2 Hf2 Hcr2 Hl1 Hl2 Ht Hlen Hf text.
   pose proof msh_resolved as Hres.
@@ -229,7 +232,8 @@ Proof.
     + intros i f Hif. assert (Hi : 3 <= i) by (apply in_combine_seq in Hif; lia).
       destruct (msh_name_other i Hi) as [A B]. rewrite msh_upper. now split.
     + eapply Forall2_impl; [|exact G]. intros p g. apply groups_rel_field_group.
-  - (* encoding *)
+  - split; [|split; [reflexivity|split; reflexivity]].
+    (* encoding *)
     subst text.
     apply (enc_segment_msh st inf (length srows) last gs m2 fs (rs_ordered _ _ _ _ _ Hs)); auto.
     + subst last. apply last_idx_ge.
